@@ -17,27 +17,37 @@ NodeOfJ(j) == IF "err" \in DOMAIN j THEN j
               ELSE [j EXCEPT !.md = {<<j.md[x][1], j.md[x][2]>> : x \in DOMAIN j.md},
                              !.ch = [i \in 1..Len(j.ch) |-> <<j.ch[i][1], NodeOfJ(j.ch[i][2])>>]]
 T == Traces[tid]
-LDocs == [i \in DOMAIN T.docs |-> Parse(SDofJ(T.docs[i]), TRUE)]
+Unsafe == T.pres \in {"key_unsafe", "include_list_unsafe"}
+LDocs == [i \in DOMAIN T.docs |-> Parse(SDofJ(T.docs[i]), ~Unsafe)]
 LOut == NodeOfJ(T.out)
 LPlain == NodeOfJ(T.plain)
-Model == IF T.pres = "key" THEN BuildUnderKey(T.key, LDocs) ELSE Build(T.pres, LDocs)
+Model == CASE T.pres = "key" -> BuildUnderKey(T.key, LDocs)
+           [] T.pres = "key_unsafe" -> BuildUnderUnsafeKey(T.key, LDocs)
+           [] T.pres = "include_list_unsafe" -> Build("include_list", LDocs)
+           [] OTHER -> Build(T.pres, LDocs)
 ModelPlain == FoldDocs(LDocs)
 
 Same(a, b) == IF IsErr(a) THEN IsErr(b) /\ a.err = b.err ELSE ~IsErr(b) /\ a = b
 SameData(a, b) == IF IsErr(a) THEN IsErr(b) /\ a.err = b.err ELSE ~IsErr(b) /\ DataOf(a) = DataOf(b)
 
 Compare == IF ~Same(ModelPlain, LPlain) THEN "plain"
-           ELSE IF IsErr(Model) /\ T.pres = "key" /\ IsErr(LOut) THEN "ok"     \* (error classes under a key are wrapped)
+           ELSE IF IsErr(Model) /\ T.pres \in {"key", "key_unsafe"} /\ IsErr(LOut) THEN "ok"     \* (error classes under a key are wrapped)
            ELSE IF Same(Model, LOut) THEN "ok" ELSE IF SameData(Model, LOut) THEN "flags" ELSE "data"
 
 \* the property on what the LIBRARY produced: the delivered form builds what the plain sources build
+UnderKeyOk(out, plain) ==
+    IF IsErr(plain) THEN IsErr(out)
+    ELSE /\ ~IsErr(out) /\ DataOf(out) = DataOf(WrapUnderKey(T.key, plain))
+         /\ (T.pres = "key_unsafe" => AllUnsafe(Child(out, T.key)))        \* what unsafe content includes is unsafe
 PropVerdict ==
-    IF T.pres = "key"
+    IF T.pres = "key_unsafe" THEN (IF UnderKeyOk(LOut, LPlain) THEN "holds" ELSE "violated")
+    ELSE IF T.pres = "key"
     THEN (IF IsErr(LPlain) THEN (IF IsErr(LOut) THEN "holds" ELSE "violated")
           ELSE IF ~IsErr(LOut) /\ DataOf(LOut) = DataOf(WrapUnderKey(T.key, LPlain)) THEN "holds" ELSE "violated")
     ELSE IF Same(LPlain, LOut) THEN "holds" ELSE "violated"
 ModelVerdict ==
-    IF T.pres = "key"
+    IF T.pres = "key_unsafe" THEN (IF UnderKeyOk(Model, ModelPlain) THEN "holds" ELSE "violated")
+    ELSE IF T.pres = "key"
     THEN (IF IsErr(ModelPlain) THEN (IF IsErr(Model) THEN "holds" ELSE "violated")
           ELSE IF ~IsErr(Model) /\ DataOf(Model) = DataOf(WrapUnderKey(T.key, ModelPlain)) THEN "holds" ELSE "violated")
     ELSE IF Same(ModelPlain, Model) THEN "holds" ELSE "violated"
